@@ -1,1 +1,380 @@
-// placeholder
+// ======================================================================================
+// units/C17/spo_theory.rs - what property C17 talks about, as mathematics (no code of /repo here):
+//   * concrete scalar stores and the effect of one IL operation on them (from the IL semantics:
+//     the executor keys its store BY NAME and stores whatever the right-hand side evaluates to),
+//   * the abstract offsets Top / Value(bits, value) / Bottom, their order, join and concretisation
+//     gamma (sp == sp0 + value  mod 2^bits), all taken from the property statement,
+//   * "translation of the stack pointer" and the key arithmetic fact: evaluating a translation with
+//     sp := c and with sp := sp0 + c gives results that differ by sp0 (mod 2^w), errors coincide,
+//   * the abstract transfer function and its LOCAL SOUNDNESS for every operation kind.
+// To be included inside a module with `use super::*; use super::il::*; use super::il_subst::{..}`.
+// ======================================================================================
+
+// ---------------------------------------------------------------------------------------------
+// concrete side
+
+/// a concrete scalar store: name -> (width, value).  Exactly the shape of the executor's store
+/// (`State.scalars: BTreeMap<String, Constant>`, looked up by `scalar.name()` only).
+pub type CState = IMap<Seq<char>, (nat, nat)>;
+
+/// the environment a store gives to expressions: scalars are looked up BY NAME ONLY
+/// (same reading as units/C07/state_expr.rs `store_env`)
+pub open spec fn cenv(st: CState) -> Env {
+    |x: Scalar| if st.contains_key(x.name@) { Some(st[x.name@]) } else { None::<(nat, nat)> }
+}
+
+/// the two stores agree on every name except `name`
+pub open spec fn same_except(s: CState, s2: CState, name: Seq<char>) -> bool {
+    forall|n: Seq<char>| #![trigger s2.contains_key(n)] #![trigger s2[n]] n != name ==> (s2.contains_key(n) == s.contains_key(n) && s2[n] == s[n])
+}
+
+/// the effect of one operation on the scalar store (memory is not modelled: a load may produce ANY value):
+///   Assign{dst,src}: the store with dst.name rebound to the value of src (stuck if src has no value);
+///   Load{dst,..}:    dst.name rebound to an arbitrary value, everything else unchanged;
+///   Store / Branch / Intrinsic / Nop: scalars unchanged.
+pub open spec fn op_step(op: Operation, s: CState, s2: CState) -> bool {
+    match op {
+        Operation::Assign { dst, src } => eval_spec(src, cenv(s)) matches EvalR::Val(w, v) && s2 == s.insert(dst.name@, (w, v)),
+        Operation::Load { dst, index } => same_except(s, s2, dst.name@),
+        _ => s2 == s,
+    }
+}
+
+/// the operation cannot execute in `s` (only an assignment whose right-hand side has no value)
+pub open spec fn op_stuck(op: Operation, s: CState) -> bool {
+    op matches Operation::Assign { dst, src } && !(eval_spec(src, cenv(s)) is Val)
+}
+
+/// PROVISO of the soundness statements.  The analysis identifies the stack pointer by the whole
+/// `Scalar` (name, width, ssa version) while the executor keys by name: soundness is stated for
+/// operations in which the stack pointer's NAME is written only through the stack-pointer scalar itself
+/// (no differently-sized or ssa-versioned alias of the same name is assigned / loaded).
+pub open spec fn sp_exclusive(op: Operation, sp: Scalar) -> bool {
+    match op {
+        Operation::Assign { dst, src } => dst.name@ == sp.name@ ==> dst == sp,
+        Operation::Load { dst, index } => dst.name@ == sp.name@ ==> dst == sp,
+        _ => true,
+    }
+}
+
+// ---------------------------------------------------------------------------------------------
+// abstract side
+
+/// the lattice of the analysis, as mathematics: Value(bits, value) is a constant `value` of width `bits`
+pub enum AOff {
+    Top,
+    Value(nat, nat),
+    Bottom,
+}
+
+pub open spec fn a_wf(a: AOff) -> bool {
+    a matches AOff::Value(b, v) ==> 1 <= b && b <= MAX_BITS() && v < pow2(b)
+}
+
+/// CONCRETISATION (from the property): relative to the entry value `sp0` of the stack pointer,
+/// Value(c) describes the stores in which sp holds sp0 + c modulo 2^w at sp's own width w;
+/// Top describes every store; Bottom none (unreachable).
+pub open spec fn gamma(sp: Scalar, sp0: nat, a: AOff, s: CState) -> bool {
+    match a {
+        AOff::Top => true,
+        AOff::Value(b, v) => b == sp.bits as nat && s.contains_key(sp.name@) && s[sp.name@] == (b, (sp0 + v) % pow2(b)),
+        AOff::Bottom => false,
+    }
+}
+
+/// the order Bottom < Value(c) < Top, distinct values incomparable
+pub open spec fn a_le(a: AOff, b: AOff) -> bool {
+    a is Bottom || b is Top || a == b
+}
+
+pub open spec fn a_join(a: AOff, b: AOff) -> AOff {
+    match a {
+        AOff::Top => AOff::Top,
+        AOff::Bottom => b,
+        AOff::Value(_, _) => match b {
+            AOff::Top => AOff::Top,
+            AOff::Bottom => a,
+            AOff::Value(_, _) => if a == b { a } else { AOff::Top },
+        },
+    }
+}
+
+/// what `partial_cmp` has to answer
+pub open spec fn a_cmp(a: AOff, b: AOff) -> Option<core::cmp::Ordering> {
+    if a == b { Some(core::cmp::Ordering::Equal) }
+    else if a_le(a, b) { Some(core::cmp::Ordering::Less) }
+    else if a_le(b, a) { Some(core::cmp::Ordering::Greater) }
+    else { None }
+}
+
+/// lattice laws (partial order, least upper bound, commutative, idempotent) and monotonicity of gamma
+pub proof fn lemma_lattice(a: AOff, b: AOff, c: AOff)
+    ensures
+        a_le(a, a),
+        a_le(a, b) && a_le(b, c) ==> a_le(a, c),
+        a_le(a, b) && a_le(b, a) ==> a == b,
+        a_le(a, a_join(a, b)), a_le(b, a_join(a, b)),
+        a_le(a, c) && a_le(b, c) ==> a_le(a_join(a, b), c),
+        a_join(a, b) == a_join(b, a),
+        a_join(a, a) == a,
+        a_le(a, b) <==> a_join(a, b) == b,
+        a_wf(a) && a_wf(b) ==> a_wf(a_join(a, b)),
+        a_cmp(a, b) == Some(core::cmp::Ordering::Equal) <==> a == b,
+        a_cmp(a, b) == Some(core::cmp::Ordering::Less) <==> a_le(a, b) && a != b,
+        a_cmp(a, b) == Some(core::cmp::Ordering::Greater) <==> a_le(b, a) && a != b,
+        a_cmp(a, b) is None <==> !a_le(a, b) && !a_le(b, a),
+{
+}
+
+pub proof fn lemma_gamma_mono(sp: Scalar, sp0: nat, a: AOff, b: AOff, s: CState)
+    requires a_le(a, b), gamma(sp, sp0, a, s),
+    ensures gamma(sp, sp0, b, s),
+{
+}
+
+/// join is an upper bound for gamma: gamma(a) U gamma(b) is contained in gamma(join(a, b))
+pub proof fn lemma_join_gamma(sp: Scalar, sp0: nat, a: AOff, b: AOff, s: CState)
+    requires gamma(sp, sp0, a, s) || gamma(sp, sp0, b, s),
+    ensures gamma(sp, sp0, a_join(a, b), s),
+{
+}
+
+// ---------------------------------------------------------------------------------------------
+// translations of the stack pointer
+
+/// `e` is the stack pointer plus / minus scalar-free expressions (possibly nested): the only shapes
+/// for which the new value of sp is the old one plus a number that does not depend on the store
+pub open spec fn is_transl(sp: Scalar, e: Expression) -> bool
+    decreases e,
+{
+    match e {
+        Expression::Scalar(s) => s == sp,
+        Expression::Add(l, r) => (is_transl(sp, *l) && expr_all_constants(*r)) || (expr_all_constants(*l) && is_transl(sp, *r)),
+        Expression::Sub(l, r) => is_transl(sp, *l) && expr_all_constants(*r),
+        _ => false,
+    }
+}
+
+pub proof fn lemma_add_mod_left(x: nat, y: nat, m: nat)
+    requires m > 0,
+    ensures ((x % m) + y) % m == (x + y) % m,
+{
+    lemma_fundamental_div_mod(x as int, m as int);
+    lemma_mod_multiples_vanish((x / m) as int, (x % m + y) as int, m as int);
+    assert((m * (x / m) + (x % m + y)) as int == (x + y) as int);
+}
+
+pub proof fn lemma_add_mod_right(x: nat, y: nat, m: nat)
+    requires m > 0,
+    ensures (x + (y % m)) % m == (x + y) % m,
+{
+    lemma_add_mod_left(y, x, m);
+}
+
+/// (x mod m - k) mod m == (x - k) mod m over the integers
+pub proof fn lemma_sub_mod_left(x: int, k: int, m: int)
+    requires m > 0,
+    ensures ((x % m) - k) % m == (x - k) % m,
+{
+    lemma_fundamental_div_mod(x, m);
+    lemma_mod_multiples_vanish(x / m, (x % m) - k, m);
+    assert(m * (x / m) + ((x % m) - k) == x - k);
+}
+
+/// the arithmetic of one translation step at width w: shifting the left operand by d shifts the result by d
+pub proof fn lemma_shift_add_sub(w: nat, d: nat, a: nat, k: nat)
+    ensures
+        bv_add(w, a, k) < pow2(w),
+        bv_add(w, k, a) < pow2(w),
+        bv_sub(w, a, k) < pow2(w),
+        bv_add(w, (d + a) % pow2(w), k) == (d + bv_add(w, a, k)) % pow2(w),
+        bv_add(w, k, (d + a) % pow2(w)) == (d + bv_add(w, k, a)) % pow2(w),
+        bv_sub(w, (d + a) % pow2(w), k) == (d + bv_sub(w, a, k)) % pow2(w),
+{
+    reveal(bv_add); reveal(bv_sub);
+    let m = pow2(w);
+    lemma_pow2_pos(w);
+    lemma_mod_bound((a + k) as int, m as int);
+    lemma_mod_bound((k + a) as int, m as int);
+    lemma_mod_bound(a as int - k as int, m as int);
+    // add, left operand shifted
+    lemma_add_mod_left(d + a, k, m);
+    lemma_add_mod_right(d, a + k, m);
+    // add, right operand shifted
+    lemma_add_mod_right(k, d + a, m);
+    lemma_add_mod_right(d, k + a, m);
+    // sub
+    lemma_sub_mod_left((d + a) as int, k as int, m as int);
+    let e = (a as int - k as int) % (m as int);
+    lemma_fundamental_div_mod(a as int - k as int, m as int);
+    lemma_mod_multiples_vanish((a as int - k as int) / (m as int), d as int + e, m as int);
+    assert(m as int * ((a as int - k as int) / (m as int)) + (d as int + e) == d as int + a as int - k as int);
+}
+
+/// the two evaluation results are "the same up to a shift by d at width w": values of width w that
+/// differ by d modulo 2^w, or the same error
+pub open spec fn shift_rel(w: nat, d: nat, a: EvalR, b: EvalR) -> bool {
+    match a {
+        EvalR::Val(wa, va) => wa == w && va < pow2(w) && b == EvalR::Val(w, (d + va) % pow2(w)),
+        _ => b == a,
+    }
+}
+
+/// KEY FACT: for a translation e of sp, evaluating e in an environment where sp has the value c and in
+/// one where sp has the value d + c (mod 2^w) gives results that differ by d (mod 2^w); both evaluations
+/// fail together, with the same error.
+pub proof fn lemma_transl_eval(sp: Scalar, e: Expression, env1: Env, env2: Env, w: nat, c: nat, d: nat)
+    requires
+        is_transl(sp, e),
+        c < pow2(w),
+        env1(sp) == Some((w, c)),
+        env2(sp) == Some((w, (d + c) % pow2(w))),
+    ensures shift_rel(w, d, eval_spec(e, env1), eval_spec(e, env2)),
+    decreases e,
+{
+    match e {
+        Expression::Scalar(s) => {}
+        Expression::Add(l, r) => {
+            if is_transl(sp, *l) && expr_all_constants(*r) {
+                lemma_transl_eval(sp, *l, env1, env2, w, c, d);
+                lemma_all_constants_env(*r, env1, env2);
+                if let EvalR::Val(wl, a) = eval_spec(*l, env1) {
+                    if let EvalR::Val(wr, k) = eval_spec(*r, env1) {
+                        lemma_shift_add_sub(w, d, a, k);
+                    }
+                }
+            } else {
+                lemma_transl_eval(sp, *r, env1, env2, w, c, d);
+                lemma_all_constants_env(*l, env1, env2);
+                if let EvalR::Val(wl, k) = eval_spec(*l, env1) {
+                    if let EvalR::Val(wr, a) = eval_spec(*r, env1) {
+                        lemma_shift_add_sub(w, d, a, k);
+                    }
+                }
+            }
+        }
+        Expression::Sub(l, r) => {
+            lemma_transl_eval(sp, *l, env1, env2, w, c, d);
+            lemma_all_constants_env(*r, env1, env2);
+            if let EvalR::Val(wl, a) = eval_spec(*l, env1) {
+                if let EvalR::Val(wr, k) = eval_spec(*r, env1) {
+                    lemma_shift_add_sub(w, d, a, k);
+                }
+            }
+        }
+        _ => {}
+    }
+}
+
+// ---------------------------------------------------------------------------------------------
+// the abstract transfer function of one operation, and its local soundness
+
+/// the environment in which only the stack pointer has a value: the offset c of width b
+pub open spec fn sp_env(sp: Scalar, b: nat, v: nat) -> Env {
+    env_upd(empty_env(), sp, b, v)
+}
+
+/// the transfer function (None = the analysis reports an error):
+///   assignment to sp of a translation: the offset moves by the translation (error iff the translation has no value);
+///   assignment to sp of anything else, load into sp: unknown;
+///   everything else: unchanged.   Top stays Top, Bottom (unreachable) stays Bottom.
+pub open spec fn handle_abs(sp: Scalar, op: Operation, a: AOff) -> Option<AOff> {
+    match op {
+        Operation::Assign { dst, src } =>
+            if dst == sp {
+                match a {
+                    AOff::Top => Some(AOff::Top),
+                    AOff::Bottom => Some(AOff::Bottom),
+                    AOff::Value(b, v) =>
+                        if is_transl(sp, src) {
+                            match eval_spec(src, sp_env(sp, b, v)) {
+                                EvalR::Val(w2, v2) => Some(AOff::Value(w2, v2)),
+                                _ => None,
+                            }
+                        } else { Some(AOff::Top) },
+                }
+            } else { Some(a) },
+        Operation::Load { dst, index } => if dst == sp { Some(AOff::Top) } else { Some(a) },
+        _ => Some(a),
+    }
+}
+
+/// LOCAL SOUNDNESS of going from `a` to `a2` across `op`: every store described by `a` (for whatever
+/// entry value sp0) is taken by `op` only to stores described by `a2`
+pub open spec fn step_sound(sp: Scalar, op: Operation, a: AOff, a2: AOff) -> bool {
+    forall|sp0: nat, s: CState, s2: CState| #![trigger gamma(sp, sp0, a, s), op_step(op, s, s2)]
+        gamma(sp, sp0, a, s) && op_step(op, s, s2) ==> gamma(sp, sp0, a2, s2)
+}
+
+/// one instance of local soundness of the transfer function
+pub proof fn lemma_handle_sound_at(sp: Scalar, op: Operation, a: AOff, sp0: nat, s: CState, s2: CState)
+    requires
+        sp_exclusive(op, sp), a_wf(a),
+        handle_abs(sp, op, a) is Some,
+        gamma(sp, sp0, a, s), op_step(op, s, s2),
+    ensures gamma(sp, sp0, handle_abs(sp, op, a).unwrap(), s2),
+{
+    match op {
+        Operation::Assign { dst, src } => {
+            if dst == sp {
+                if let AOff::Value(b, v) = a {
+                    if is_transl(sp, src) {
+                        lemma_transl_eval(sp, src, sp_env(sp, b, v), cenv(s), b, v, sp0);
+                    }
+                }
+            } else {
+                assert(dst.name@ != sp.name@);
+            }
+        }
+        Operation::Load { dst, index } => {
+            if dst != sp { assert(dst.name@ != sp.name@); }
+        }
+        _ => {}
+    }
+}
+
+/// LOCAL SOUNDNESS of the transfer function, for every operation kind
+pub proof fn lemma_handle_sound(sp: Scalar, op: Operation, a: AOff)
+    requires sp_exclusive(op, sp), a_wf(a), handle_abs(sp, op, a) is Some,
+    ensures step_sound(sp, op, a, handle_abs(sp, op, a).unwrap()),
+{
+    let a2 = handle_abs(sp, op, a).unwrap();
+    assert forall|sp0: nat, s: CState, s2: CState| #![trigger gamma(sp, sp0, a, s), op_step(op, s, s2)]
+        gamma(sp, sp0, a, s) && op_step(op, s, s2) implies gamma(sp, sp0, a2, s2) by {
+        lemma_handle_sound_at(sp, op, a, sp0, s, s2);
+    }
+}
+
+/// when the transfer function reports an error, no store described by the input can execute the operation either
+pub proof fn lemma_handle_err_stuck(sp: Scalar, op: Operation, a: AOff, sp0: nat, s: CState)
+    requires a_wf(a), handle_abs(sp, op, a) is None, gamma(sp, sp0, a, s),
+    ensures op_stuck(op, s),
+{
+    match op {
+        Operation::Assign { dst, src } => {
+            if let AOff::Value(b, v) = a {
+                lemma_transl_eval(sp, src, sp_env(sp, b, v), cenv(s), b, v, sp0);
+            }
+        }
+        _ => {}
+    }
+}
+
+/// the transfer function keeps abstract values well formed (given that evaluation yields in-range values)
+pub proof fn lemma_handle_mono(sp: Scalar, op: Operation, a: AOff, b: AOff)
+    requires a_le(a, b), handle_abs(sp, op, a) is Some, handle_abs(sp, op, b) is Some,
+    ensures a_le(handle_abs(sp, op, a).unwrap(), handle_abs(sp, op, b).unwrap()),
+{
+}
+
+/// the signed reading of the offset: sp0 + value and sp0 + sval(value) are the same stack-pointer value mod 2^w
+pub proof fn lemma_signed_reading(w: nat, sp0: nat, v: nat)
+    requires w >= 1, v < pow2(w),
+    ensures ((sp0 + v) % pow2(w)) as int == (sp0 as int + sval(w, v)) % (pow2(w) as int),
+{
+    lemma_pow2_pos(w);
+    if sval(w, v) != v as int {
+        lemma_mod_multiples_vanish(-1, (sp0 + v) as int, pow2(w) as int);
+        assert(pow2(w) as int * -1 + (sp0 + v) as int == sp0 as int + sval(w, v));
+    }
+}
